@@ -13,7 +13,8 @@ CONSTANTS Mode, KindsUnderTest, FaultDepth, MaxFrames, AllPTs, MaxCompound, MaxH
 VARIABLES pc, hist     \* hist: the calls made so far (hist mode)
 mvars == << vars, pc, hist >>
 
-Vals == CASE Mode \in {"wire", "foreign"} -> (IF KindsUnderTest = {"PAIRS"} THEN PairAll ELSE UNION { StarDom(k) : k \in KindsUnderTest })
+Vals == CASE Mode \in {"wire", "foreign"} -> (IF KindsUnderTest = {"PAIRS"} THEN PairAll ELSE IF KindsUnderTest = {"UNK"} THEN UnkDom
+                                               ELSE UNION { StarDom(k) : k \in KindsUnderTest })
           [] Mode = "limits" -> LimitDom
           [] Mode = "loose" -> LooseDom
           [] Mode = "variants" -> VarDom \cup InflateDom
